@@ -12,7 +12,7 @@ Definition observe (p : prog) (s0 : st) : runobs * st :=
       r_attrs := attrs s; r_outs := outs_of (tr s) |}, s).
 
 Definition model (i : input) : obs :=
-  let '(r1, s1) := observe (i_prog i) (init (i_attrs i)) in
+  let '(r1, s1) := observe (i_prog i) (init (i_prog i) (i_attrs i)) in
   let '(r2, _) := observe (i_prog i) s1 in
   {| o_first := r1; o_second := r2 |}.
 
